@@ -132,7 +132,8 @@ MAX_STEPS = 200000
 
 
 class Interp:
-    def __init__(self, state, registry=None, inline=(), top=None, loops=None):
+    def __init__(self, state, registry=None, inline=(), top=None, loops=None, views=None):
+        self.views = views or {}
         self.st = state
         self.registry = registry
         self.inline = set(inline)
@@ -169,7 +170,7 @@ class Interp:
         if q in self.inline and self.depth > 0:
             return self.run_body(fn, args, kwargs)       # verified as part of the caller (listed in evidence)
         if self.registry is not None:
-            c = self.registry.lookup(fn, args)
+            c = self.registry.lookup(fn, args, self.views)
             if c is not None and not (self.top is not None and self.top[0] is fn and self.depth == 0):
                 self.called.append(c.name)
                 return c.apply(self, fn, args, kwargs)
@@ -775,6 +776,11 @@ class Interp:
             except Exception as exc:
                 raise Raised(type(exc), exc.args)
         if sym.is_byteslike(obj):
+            if getattr(st, 'garbled', False) and (isinstance(lo, SInt) or isinstance(hi, SInt)):
+                # input already known not to be grammar-valid: any sub-string (over-approximation)
+                c = st.new_chunk('garbled')
+                st.assume(c.len <= st.rope_len_term(obj))
+                return SBytes([c], getattr(obj, 'mutable', False))
             return st.rope_slice(obj, lo, hi, tag)
         if sym.is_strlike(obj):
             if (lo in (None, 0)) and isinstance(hi, int) and hi >= 0:
